@@ -158,3 +158,23 @@ PROPS["C15"] = {
     "quick": [R("TestPropHasherVsCarbon", 400), R("TestPropRouteAssignAndChurn", 150)],
     "thorough": [R("TestPropHasherVsCarbon", 5000, shards=10, timeout=2400), R("TestPropRouteAssignAndChurn", 2000, shards=6, timeout=2400)],
 }
+
+PROPS["C16"] = {
+    "pkg": "c16", "level": "exploration",
+    "rule": ("pickle_out: rapid draws lines (untagged / 1-4 tags incl. invalid ones, every float spelling incl. hex, NaN, Inf, -0, out-of-range, "
+             "near-misses; timestamps in and out of uint32, non-integer, negative) -> destination.ParseDataPoint + destination.Pickle; the payload "
+             "is unpickled by CPython itself (python3 and python 2.7 when present) and must be [(name,(int ts, float value))] equal to "
+             "strconv.ParseFloat / ParseUint of the tokens (NaN- and sign-aware); unrepresentable lines must be refused. metricdata: rapid draws "
+             "a storage-schemas file (0-6 rules + mandatory .*: unanchored, ^, $, ^...$, tag-sensitive patterns; priorities absent/equal/different/"
+             "negative; old and new retention syntax; comments; spacing) and lines; the record built by the verif-tagged parseMetric wrapper (the "
+             "conversion shared by grafanaNet and kafkaMdm) must carry name = text before ';', sorted tags, value, time, org id and interval = "
+             "first retention of the rule chosen by a reference selector (priority desc, then file order, first regexp match on name or "
+             "name;sorted-tags). Non-trivial (metricdata): >=2 rules match and a $-anchored or tag-sensitive non-default rule decides; "
+             "(pickle_out): the line is representable. Distinct = hash(line[, schemas text])."),
+    "level_text": "Round-trip through a real external decoder (CPython pickle.loads) and reference-model comparison for schema selection over generated files and lines; holds on all generated.",
+    "level_note": "Names are ASCII (CPython 3 refuses non-ASCII byte strings by default); the MetricData conversion is checked at parseMetric (white-box wrapper); real grafanaNet POST bodies are decoded in C17.",
+    "technique": "property-based testing (rapid): round-trip via CPython unpickler + reference storage-schemas selector",
+    "assumptions": ["CPython's unpickler is the reference decoder", "metrictank's MetricData.Validate defines which tags are invalid"],
+    "quick": [R("TestPropPickleOut", 6000), R("TestPropMetricData", 6000)],
+    "thorough": [R("TestPropPickleOut", 60000, shards=6, timeout=2400), R("TestPropMetricData", 100000, shards=10, timeout=2400)],
+}
